@@ -66,17 +66,20 @@ EmitTime == st[1] = "hm" =>
 BoundaryTimes == { <<0, 0, 0, 0>>, <<0, 0, 0, 1>>, <<0, 0, 0, 999999>>, <<12, 0, 0, 500000>>, <<23, 59, 59, 0>>, <<23, 59, 59, 999999>>,
                    <<11, 59, 59, 999999>>, <<12, 0, 0, 0>>, <<0, 59, 59, 999999>>, <<1, 0, 0, 0>> }
 InvalidTimes  == { <<24, 0, 0>>, <<23, 60, 0>>, <<23, 59, 60>>, <<24, 59, 59>>, <<99, 0, 0>> }
+(* well-formed dates whose year is outside 1..9999 *)
+OutOfRangeYears == { <<0, 1, 1>>, <<0, 6, 15>>, <<0, 12, 31>>, <<10000, 1, 1>>, <<10000, 12, 31>> }
 TsDates == { <<y, 12, 31>> : y \in Years } \cup { <<y, 1, 1>> : y \in Years } \cup { <<y, 2, 28>> : y \in Years }
              \cup { <<y, 3, 1>> : y \in Years } \cup { <<y, 2, 29>> : y \in { yy \in Years : IsLeap(yy) } }
 TsTimes == { <<0, 0, 0, 0>>, <<23, 59, 59, 0>>, <<23, 59, 59, 999999>>, <<0, 0, 0, 1>>, <<12, 30, 15, 250000>> }
 EmitBoundary == (Mode = "times" /\ st[1] = "root") =>
     /\ PrintT(<<"T", ToJson([k |-> "tbound", ok |-> { [h |-> t[1], mi |-> t[2], s |-> t[3], us |-> t[4], v |-> TimeValue(t[1], t[2], t[3], t[4]),
                                                        txt |-> TimeText(t[1], t[2], t[3])] : t \in BoundaryTimes },
-                             bad |-> InvalidTimes])>>)
+                             bad |-> InvalidTimes, badyears |-> OutOfRangeYears])>>)
     /\ \A dt \in TsDates : PrintT(<<"T", ToJson([k |-> "ts", y |-> dt[1], m |-> dt[2], d |-> dt[3], dtxt |-> DateText(dt[1], dt[2], dt[3]),
              at |-> { [h |-> t[1], mi |-> t[2], s |-> t[3], us |-> t[4], v |-> TimestampValue(dt[1], dt[2], dt[3], t[1], t[2], t[3], t[4]),
                        txt |-> TimeText(t[1], t[2], t[3])] : t \in TsTimes }])>>)
 
 ASSUME \A t \in BoundaryTimes : ValidTime(t[1], t[2], t[3], t[4])
 ASSUME \A t \in InvalidTimes : ~ValidTime(t[1], t[2], t[3], 0)
+ASSUME \A d \in OutOfRangeYears : ~ValidDate(d[1], d[2], d[3]) /\ d[2] \in 1..12 /\ d[3] \in 1..31
 =============================================================================
